@@ -22,6 +22,7 @@ FileRec ==
 
 Emit == /\ (h = <<>> => PrintT(<<"CASE", ToJson(FileRec)>>))
         /\ (done # "no" => PrintT(<<"CASE", ToJson([beh |-> TRUE, fid |-> fid, calls |-> h])>>))
-MetaRec == [meta |-> [t \in TSs |-> MetaBytes(t)], preamble |-> Preamble]
+MetaRec == [meta |-> [t \in TSs |-> MetaBytes(t)], preamble |-> Preamble,
+            dictfacts |-> {<<t, KnownTags[t]>> : t \in DOMAIN KnownTags}]
 ASSUME PrintT(<<"CASE", ToJson(MetaRec)>>)
 =============================================================================
